@@ -11,6 +11,10 @@ Part L: shipped .order files: for every sample of the shipped patch corpus, dele
 Part G: `annet gen` end to end (annet.gen.worker through mc/e2e.py) on every corpus sample's new tree, split over two
         generators: the printed configuration holds exactly the generated rows at every depth (with --acl-safe: those
         of the safe generator), and ordering it again changes nothing.
+Part T: history through the reference tracker: per vendor, the patch and the ordered configuration of every corpus sample
+        are computed, then every sample is patched once more with a RefTracker that links two of its rows (the path on
+        which annet.api.patch_from_pre inserts reference-derived ordering rules), then the first results are computed
+        again and must be unchanged: the order of a device's commands does not depend on devices handled before it.
 Part O: Orderer(compile_ordering_text(O), vendor).order_config(t) for ordering rulebooks with nested rules (also as the
         FIRST rule) x configurations of <= 3 top-level rows (mentioned, unmentioned, negated) whose blocks hold <= 2
         children in every order: same rows at every depth, idempotent, and the order inside a block is the order the
@@ -496,6 +500,60 @@ def run_o(block, ctx):
     ctx.sample({"part": "O", "ordering": otext(orules)})
 
 
+class _RefA:
+    pass
+
+
+class _RefB:
+    pass
+
+
+def _patch_and_order(s_, ref_track=None):
+    import types
+    from annet import api
+    from annet.annlib.netdev.views.hardware import HardwareView
+    from annet.patching import Orderer
+    hw = HardwareView(s_["model"], None)
+    dev = types.SimpleNamespace(hw=hw, hostname="d", fqdn="d")
+    try:
+        _, pt = api._diff_and_patch(dev, env.to_odict(s_["old"]), env.to_odict(s_["new"]), None, None, False, ref_track=ref_track)
+        paths = [list(p) for p in env.vendor_obj(hw.vendor).make_formatter().cmd_paths(pt)]
+    except Exception as e:  # noqa
+        paths = "%s" % type(e).__name__
+    try:
+        ordered = to_list(Orderer.from_hw(hw).order_config(env.to_odict(s_["new"])))
+    except Exception as e:  # noqa
+        ordered = "%s" % type(e).__name__
+    return paths, ordered
+
+
+def run_t(block, ctx):
+    from annet.reference import RefTracker
+    S = [s_ for s_ in corpus.samples() if s_["vendor_key"] == block["vendor_key"]]
+    first = [_patch_and_order(s_) for s_ in S]
+    for s_ in S:
+        tops = [r for r, _ in s_["new"]]
+        if len(tops) < 2:
+            continue
+        rt = RefTracker()
+        rt.add(_RefA, _RefB)
+        rt.config(_RefA, env.to_odict([x for x in s_["new"] if x[0] == tops[-1]]))
+        rt.config(_RefB, env.to_odict([x for x in s_["new"] if x[0] == tops[0]]))
+        _patch_and_order(s_, ref_track=rt)
+        ctx.extra["ref_tracker_jobs"] += 1
+    for s_, before in zip(S, first):
+        after = _patch_and_order(s_)
+        ctx.evals += 2
+        ctx.states += 1
+        ctx.nontrivial += int(isinstance(before[0], list) and len(before[0]) > 1)
+        ctx.outcomes["T:%s" % ("same" if after == before else "differs")] += 1
+        if after != before:
+            what = "patch" if after[0] != before[0] else "order_config"
+            ctx.violation({"kind": "order-depends-on-earlier-devices", "part": "T", "what": what, "vendor": block["vendor_key"]},
+                          {"part": "T", "vendor_key": block["vendor_key"], "sample": s_["name"]},
+                          "sample %s: before the RefTracker jobs %r, after them %r" % (s_["name"], before[0 if what == "patch" else 1], after[0 if what == "patch" else 1]))
+
+
 def check_gen_e2e(sample, acl_safe, report):
     from annet.annlib.tabparser import parse_to_tree
     from annet.patching import Orderer
@@ -568,6 +626,8 @@ def blocks(tier, seed):
         out.append({"part": "C", "vendor": v})
     for i in range(8):
         out.append({"part": "G", "i": i, "of": 8})
+    for vk in sorted({s_["vendor_key"] for s_ in corpus.samples()}):
+        out.append({"part": "T", "vendor_key": vk})
     for v in (list(VENDOR_PREFIX) if tier == "thorough" else ["huawei"]):
         for i in range(len(nested_order_rulebooks("undo"))):
             out.append({"part": "O", "vendor": v, "i": i})
@@ -575,7 +635,7 @@ def blocks(tier, seed):
 
 
 def run_block(block, ctx):
-    {"P": run_p, "N": run_n, "L": run_l, "C": run_c, "G": run_g, "O": run_o}[block["part"]](block, ctx)
+    {"P": run_p, "N": run_n, "L": run_l, "C": run_c, "G": run_g, "O": run_o, "T": run_t}[block["part"]](block, ctx)
 
 
 def replay(case):
@@ -590,6 +650,12 @@ def replay(case):
                 prefix_word_rules(VENDOR_PREFIX[case["vendor"]])[0])
     elif case["part"] == "C":
         judge_c(case["vendor"], case["forest"], rep)
+    elif case["part"] == "T":
+        import time
+        from mc.core import Ctx
+        ctx = Ctx(time.time() + 600, "quick", 0)
+        run_t({"part": "T", "vendor_key": case["vendor_key"]}, ctx)
+        return [(e["sig"], e["cases"][0]["detail"]) for e in ctx.result()["viol"].values()]
     elif case["part"] == "O":
         judge_o(case["vendor"], [ORule.from_json(d) for d in case["ordering"]], case["forest"], rep)
     elif case["part"] == "G":
